@@ -304,10 +304,29 @@ def _class_source(k, c, pc, base_names, ns, rec, name=None):
         order = list(reversed(entries)) if pc.get("these_rev", True) else entries
         objs = {n: mk(**_opts_kwargs(o, ns, n, pc)) for n, o in order}
         d = {n: objs[n] for n, _ in entries}
-        if pc.get("ck", {}).get("these") == "odict":
+        tk = pc.get("ck", {}).get("these", "dict")
+        if via.startswith("make_class") and tk not in ("dict", "odict", "tuple"):
+            tk = "dict"                      # make_class accepts dicts and lists only
+        under = [d]                          # the user's own mutable object(s) behind whatever is passed
+        if tk == "odict":
             d = _collections.OrderedDict(d)
+            under = [d]
+        elif tk == "proxy":
+            d = types.MappingProxyType(d)
+        elif tk == "mapping":
+            d = UserMapping(under[0])
+        elif tk == "userdict":
+            d = _collections.UserDict(d)
+            under = [d]
+        elif tk == "chainmap":
+            # a ChainMap iterates its LAST map first: (second half, first half) iterates in the order of `entries`
+            half = len(entries) // 2
+            first = {n: objs[n] for n, _ in entries[:half]}
+            second = {n: objs[n] for n, _ in entries[half:]}
+            d = _collections.ChainMap(second, first)
+            under = [second, first]
         ns[these_var] = d
-        ns["_user"]["these"].append(d)
+        ns["_user"]["these"].extend(under)
         dk["these"] = these_var
     if c["kwOnly"]:
         dk["kw_only"] = "True"
